@@ -167,8 +167,8 @@ func Harness_C03_gates() {
 	ri := zzsym.Choice("req", len(c03Corpus))
 	req := c03Corpus[ri]
 	e := New(c03ES{})
-	npm := zzsym.Choice("npm", 3)
-	ncm := zzsym.Choice("ncm", 3)
+	npm := zzsym.Choice("npm", zzsym.Param("maxmut", 2)+1)
+	ncm := zzsym.Choice("ncm", zzsym.Param("maxmut", 2)+1)
 	var pms []*c03ParamMutator
 	var cms []*c03CtxMutator
 	// one extension value may implement both mutator interfaces (registered first: its hooks run first in both phases)
@@ -356,7 +356,7 @@ func (x c03RespField) InterceptField(ctx context.Context, next graphql.Resolver)
 func Harness_C03_hooks() {
 	c03Log = nil
 	e := New(c03ES{})
-	n := zzsym.Choice("next", 4)
+	n := zzsym.Choice("next", zzsym.Param("maxext", 3)+1)
 	var masks []int
 	for k := 0; k < n; k++ {
 		b := &c03Ext{idx: k}
